@@ -804,7 +804,12 @@ impl<'a> LiveEvents<'a> {
 
             match raw {
                 Event::DocumentStart(_) => {
-                    // Found the start of the next document
+                    // Found the start of the next document. The budget enforcer has to see the
+                    // boundary as well (per-document counters restart here); a breach caused by
+                    // this event alone is reported with the document's first real event.
+                    if let Some(budget) = self.budget.as_mut() {
+                        let _ = budget.observe(&raw);
+                    }
                     self.reset_document_state();
                     self.produced_any_in_doc = false;
                     return true;
